@@ -245,3 +245,22 @@ package solver
 //@     invariant keepP: forall(k, 0, old(s.nbVars), s.polarity[k] == old(s.polarity[k]))
 //@     invariant unboundM: forall(k, old(s.nbVars), i, s.model[k] == 0)
 //@     invariant unboundR: forall(k, old(s.nbVars), i, s.reason[k] == nil)
+
+// backtrackLevel: the highest decision level, other than the level of the falsified literal,
+// among the other variables of the constraint (at least 1).
+//@ func (*pbSet).backtrackLevel
+//@   requires nn:  pb != nil && s != nil && falsified >= 0
+//@   requires idx: falsified / 2 < len(s.model) && len(pb.weights) <= len(s.model) && len(pb.weights) < 1073741824
+//@   ensures  min:   result >= 1
+//@   ensures  upper: forall(i, 0, len(pb.weights), pb.weights[i] != 0 && i != falsified / 2 && absi(s.model[i]) != absi(s.model[falsified / 2]) ==> absi(s.model[i]) <= result)
+//@   ensures  attained: result == 1 || exists(i, 0, len(pb.weights), pb.weights[i] != 0 && i != falsified / 2 && absi(s.model[i]) == result && result != absi(s.model[falsified / 2]))
+//@   loop 1
+//@     invariant idx:   0 <= rangei && rangei <= len(pb.weights) && lvl == absi(s.model[falsified / 2]) && v == falsified / 2
+//@     invariant min:   maxLvl >= 1
+//@     invariant upper: forall(i, 0, rangei, pb.weights[i] != 0 && i != v && absi(s.model[i]) != lvl ==> absi(s.model[i]) <= maxLvl)
+//@     invariant attained: maxLvl == 1 || exists(i, 0, rangei, pb.weights[i] != 0 && i != v && absi(s.model[i]) == maxLvl && maxLvl != lvl)
+
+// falsifies: lit's negation appears in pb (the variable has a weight of the opposite sign).
+//@ func (*pbSet).falsifies
+//@   requires idx: pb != nil && lit >= 0 && lit / 2 < len(pb.weights)
+//@   ensures  def: result <==> (pb.weights[lit / 2] != 0 && ((pb.weights[lit / 2] < 0) <==> (lit % 2 == 0)))
